@@ -16,8 +16,168 @@ import (
 // Locker is sync.Locker.
 type Locker = sync.Locker
 
-// Map is sync.Map (not instrumented; tally does not use it).
-type Map = sync.Map
+// Map has the API of sync.Map. Outside a run it is one; under the scheduler every
+// operation is a scheduling point and Range visits the entries in insertion
+// order (sync.Map's own Range order is the runtime's map order, which does not
+// replay).
+type Map struct {
+	real sync.Map
+	mu   sync.Mutex // never held across a scheduling point
+	keys []interface{}
+	vals map[interface{}]interface{}
+}
+
+func (m *Map) sim() bool {
+	if !simrt.InTask() {
+		return false
+	}
+	simrt.Point(simrt.OpAtomic, unsafe.Pointer(m))
+	return true
+}
+
+func (m *Map) put(k, v interface{}) {
+	if m.vals == nil {
+		m.vals = map[interface{}]interface{}{}
+	}
+	if _, ok := m.vals[k]; !ok {
+		m.keys = append(m.keys, k)
+	}
+	m.vals[k] = v
+}
+
+func (m *Map) del(k interface{}) {
+	if _, ok := m.vals[k]; !ok {
+		return
+	}
+	delete(m.vals, k)
+	for i, x := range m.keys {
+		if x == k {
+			m.keys = append(m.keys[:i:i], m.keys[i+1:]...)
+			break
+		}
+	}
+}
+
+// Load returns the value stored for a key.
+func (m *Map) Load(key interface{}) (interface{}, bool) {
+	if !m.sim() {
+		return m.real.Load(key)
+	}
+	m.mu.Lock()
+	defer m.mu.Unlock()
+	v, ok := m.vals[key]
+	return v, ok
+}
+
+// Store sets the value for a key.
+func (m *Map) Store(key, value interface{}) {
+	if !m.sim() {
+		m.real.Store(key, value)
+		return
+	}
+	m.mu.Lock()
+	defer m.mu.Unlock()
+	m.put(key, value)
+}
+
+// LoadOrStore returns the existing value for the key if present, else stores and returns the given one.
+func (m *Map) LoadOrStore(key, value interface{}) (interface{}, bool) {
+	if !m.sim() {
+		return m.real.LoadOrStore(key, value)
+	}
+	m.mu.Lock()
+	defer m.mu.Unlock()
+	if v, ok := m.vals[key]; ok {
+		return v, true
+	}
+	m.put(key, value)
+	return value, false
+}
+
+// LoadAndDelete deletes the value for a key, returning the previous value if any.
+func (m *Map) LoadAndDelete(key interface{}) (interface{}, bool) {
+	if !m.sim() {
+		return m.real.LoadAndDelete(key)
+	}
+	m.mu.Lock()
+	defer m.mu.Unlock()
+	v, ok := m.vals[key]
+	m.del(key)
+	return v, ok
+}
+
+// Delete deletes the value for a key.
+func (m *Map) Delete(key interface{}) { m.LoadAndDelete(key) }
+
+// Swap swaps the value for a key and returns the previous value if any.
+func (m *Map) Swap(key, value interface{}) (interface{}, bool) {
+	if !m.sim() {
+		return m.real.Swap(key, value)
+	}
+	m.mu.Lock()
+	defer m.mu.Unlock()
+	v, ok := m.vals[key]
+	m.put(key, value)
+	return v, ok
+}
+
+// CompareAndSwap swaps the old and new values for key if the value stored is equal to old.
+func (m *Map) CompareAndSwap(key, old, new interface{}) bool {
+	if !m.sim() {
+		return m.real.CompareAndSwap(key, old, new)
+	}
+	m.mu.Lock()
+	defer m.mu.Unlock()
+	if v, ok := m.vals[key]; ok && v == old {
+		m.vals[key] = new
+		return true
+	}
+	return false
+}
+
+// CompareAndDelete deletes the entry for key if its value is equal to old.
+func (m *Map) CompareAndDelete(key, old interface{}) bool {
+	if !m.sim() {
+		return m.real.CompareAndDelete(key, old)
+	}
+	m.mu.Lock()
+	defer m.mu.Unlock()
+	if v, ok := m.vals[key]; ok && v == old {
+		m.del(key)
+		return true
+	}
+	return false
+}
+
+// Range calls f for each entry; entries stored or deleted meanwhile may or may not be seen.
+func (m *Map) Range(f func(key, value interface{}) bool) {
+	if !m.sim() {
+		m.real.Range(f)
+		return
+	}
+	m.mu.Lock()
+	keys := append([]interface{}(nil), m.keys...)
+	m.mu.Unlock()
+	for _, k := range keys {
+		m.mu.Lock()
+		v, ok := m.vals[k]
+		m.mu.Unlock()
+		if ok && !f(k, v) {
+			return
+		}
+	}
+}
+
+// Clear deletes all the entries.
+func (m *Map) Clear() {
+	if !m.sim() {
+		m.real.Clear()
+		return
+	}
+	m.mu.Lock()
+	defer m.mu.Unlock()
+	m.keys, m.vals = nil, nil
+}
 
 // Mutex is sync.Mutex under the scheduler.
 type Mutex struct {
